@@ -777,13 +777,33 @@ func flushQualPanics(r *mon.Run) {
 		return bytes.Compare(a.Proof, b.Proof) < 0
 	})
 	for _, p := range ps {
-		st := p.stack
-		if len(st) > 3000 {
-			st = st[:3000]
-		}
+		st := normStack(p.stack)
 		r.Violation("C16:validateProve:panic:"+mon.PanicSite(p.stack), fmt.Sprintf("validateProve(height=%d, workingMiners=%d, totalStake=%d) panics: %s", p.c.Height, p.c.WorkingMiners, p.c.TotalStake, p.msg),
 			map[string]interface{}{"case": p.c, "panic": p.msg, "stack": st})
 	}
+}
+
+// normStack drops goroutine ids, argument values and pc offsets so that the
+// witness of a panic is identical from run to run.
+func normStack(st string) string {
+	var out []string
+	for _, l := range strings.Split(st, "\n") {
+		if strings.HasPrefix(l, "goroutine ") || l == "" {
+			continue
+		}
+		if strings.HasPrefix(l, "\t") {
+			if i := strings.Index(l, " +0x"); i > 0 {
+				l = l[:i]
+			}
+		} else if i := strings.LastIndex(l, "("); i > 0 {
+			l = l[:i]
+		}
+		out = append(out, l)
+	}
+	if len(out) > 40 {
+		out = out[:40]
+	}
+	return strings.Join(out, "\n")
 }
 
 // runQual executes one qualification probe twice (determinism) and judges it.
